@@ -126,8 +126,10 @@ Definition state_at (g : cfg) (i k : nat) : astate := arun (init_of g i) (firstn
 (* ---- execution of the emitted code ----
    env: values of the 32-bit SSA base values; aenv: values of the SSA address values; mem: byte length of the
    memory (never shrinks; another thread may grow a shared memory at any moment); mbase: where the buffer is
-   (may change at calls and at memory.grow only). *)
-Record sem := mkS { s_env : Z -> Z; s_aenv : Z -> Z; s_mem : Z; s_base : Z }.
+   (may change at calls and at memory.grow only); log (ghost): the bounds checks that passed so far, each with
+   the value of its base and the memory length at that moment. *)
+Record passed := mkP { p_v : Z; p_ceil : Z; p_val : Z; p_mem : Z }.
+Record sem := mkS { s_env : Z -> Z; s_aenv : Z -> Z; s_mem : Z; s_base : Z; s_log : list passed }.
 
 Definition upd (f : Z -> Z) (k x : Z) : Z -> Z := fun j => if j =? k then x else f j.
 
@@ -138,13 +140,15 @@ Inductive estep (st : astate) (q : sem) : event -> sem -> Prop :=
     s_mem q <= m' ->
     (checked = true -> s_env q v + c <= m') ->            (* the emitted check passed; otherwise the run ends in a trap *)
     estep st q (Access v c a)
-      (mkS (s_env q) (if fresh then upd (s_aenv q) a (s_base q + s_env q v) else s_aenv q) m' (s_base q))
-| es_call m' base' : s_mem q <= m' -> estep st q Call (mkS (s_env q) (s_aenv q) m' base')
-| es_grow m' base' : s_mem q <= m' -> estep st q Grow (mkS (s_env q) (s_aenv q) m' base').
+      (mkS (s_env q) (if fresh then upd (s_aenv q) a (s_base q + s_env q v) else s_aenv q) m' (s_base q)
+           (if checked then mkP v c (s_env q v) m' :: s_log q else s_log q))
+| es_call m' base' : s_mem q <= m' -> estep st q Call (mkS (s_env q) (s_aenv q) m' base' (s_log q))
+| es_grow m' base' : s_mem q <= m' -> estep st q Grow (mkS (s_env q) (s_aenv q) m' base' (s_log q)).
 
 (* entering a block gives arbitrary new values to the base values it defines *)
 Definition havoc (defs : list Z) (q q' : sem) : Prop :=
-  (forall v, ~ In v defs -> s_env q' v = s_env q v) /\ s_aenv q' = s_aenv q /\ s_mem q <= s_mem q' /\ s_base q' = s_base q.
+  (forall v, ~ In v defs -> s_env q' v = s_env q v) /\ s_aenv q' = s_aenv q /\ s_mem q <= s_mem q' /\ s_base q' = s_base q /\
+  s_log q' = s_log q.
 
 Definition edge (g : cfg) (p b : nat) : Prop := (b < length g)%nat /\ (In p (b_ipreds (blk g b)) \/ In p (b_lpreds (blk g b))).
 
@@ -164,7 +168,7 @@ Definition event_vars (es : list event) : list Z :=
   flat_map (fun e => match e with Access v _ _ => [v] | _ => [] end) es.
 Definition event_addrs (es : list event) : list Z :=
   flat_map (fun e => match e with Access _ _ a => [a] | _ => [] end) es.
-Definition all_addrs (g : cfg) : list Z := flat_map (fun b => event_addrs (b_events b)) g.
+Definition all_addrs (g : cfg) : list Z := event_addrs (flat_map b_events g).
 
 Fixpoint nodupb (l : list Z) : bool :=
   match l with [] => true | x :: r => negb (existsb (Z.eqb x) r) && nodupb r end.
@@ -193,6 +197,7 @@ Fixpoint wf_blocks (g : cfg) (i : nat) (bs : list block) : bool :=
   match bs with [] => true | b :: r => wf_block g i b && wf_blocks g (S i) r end.
 
 Definition wf_cfg (g : cfg) : bool :=
+  match g with [] => false | _ => true end &&
   wf_blocks g O g &&
   nodupb (all_addrs g).   (* W4: every access names its own address value *)
 
